@@ -47,6 +47,14 @@ class StmtMixin:
         raise Unsupported("global")
 
     def ex_Import(self, s, st):
+        # a function-level `import m [as n]` binds a local name to the module
+        from .values import ModuleV
+        from .expr import EXTERNAL_MODULES
+        for a in s.names:
+            local = a.asname or a.name.split(".")[0]
+            target = a.name if a.asname else a.name.split(".")[0]
+            st = st.set_local(local, ModuleV(target, external=target.split(".")[0] in EXTERNAL_MODULES
+                                             or not self.repo.has_module(target)))
         yield st, FALL
 
     def ex_ImportFrom(self, s, st):
@@ -118,7 +126,34 @@ class StmtMixin:
         else:
             raise Unsupported("delete target")
 
+    def split_symbolic_int_key(self, st, ob, key):
+        """a symbolic int key against a dict whose keys are integer constants: one alternative per key it may equal
+        (yielding that constant) and one for 'none of them' (yielding None)"""
+        ks = [e[0] for e in ob.items]
+        if not (self.is_int(key) and self.pyconst(key) is None and ks is not None
+                and all(self.is_int(k) and self.pyconst(k) is not None for k in ks)
+                and not (ob.extra and (ob.extra.get("open") or ob.extra.get("symbolic")))):
+            yield st, key
+            return
+        k = self.to_int(key)
+        none = z3.And(*[k != self.to_int(c) for c in ks]) if ks else z3.BoolVal(True)
+        for c in ks:
+            cond = k == self.to_int(c)
+            if self.feasible(st.pc, cond):
+                yield st.assume(cond), c
+        if self.feasible(st.pc, none):
+            yield st.assume(none), None
+
     def del_item(self, st, o, key):
+        if isinstance(o, Ref) and st.obj(o).kind == "dict" and self.is_int(key) and self.pyconst(key) is None:
+            for s1, k1 in self.split_symbolic_int_key(st, st.obj(o), key):
+                if k1 is None:
+                    yield s1, RaiseV(self.exc("KeyError", key))
+                elif k1 is key:
+                    raise Unsupported("deletion by a symbolic dict key")
+                else:
+                    yield from self.del_item(s1, o, k1)
+            return
         if isinstance(o, Ref) and st.obj(o).kind == "dict":
             ob = st.obj(o)
             kc = self.key_const(key)
